@@ -190,28 +190,67 @@ Proof.
       * rewrite Hskip, Hlen. intros Hscan. apply (IH _ _ _ _ _ Hd2 Hscan).
 Qed.
 
+(* ------------------------------------------------------------------ the re-read loop *)
+Lemma only_dots_visible b : only_dots b = true -> filter (fun e => negb (is_dot e)) b = [].
+Proof.
+  unfold only_dots. destruct b as [|x b]; [discriminate|]. intros Hf.
+  induction (x :: b) as [|y l IH]; [reflexivity|]. cbn [forallb] in Hf. apply andb_true_iff in Hf.
+  destruct Hf as [Hy Hl]. cbn [filter]. rewrite Hy. cbn [negb]. apply IH. exact Hl.
+Qed.
+
+Lemma skipn_app_len {A} (a b : list A) : skipn (length a) (a ++ b) = b.
+Proof. rewrite skipn_app, skipn_all, Nat.sub_diag. reflexivity. Qed.
+
+(* whatever the loop returns is a contiguous segment of the directory ending at the new position,
+   and everything it skipped is dot records *)
+Lemma refill_segment size : forall fuel (p : list hent) b s b2 n2,
+  refill fuel s size b (length p + length b) = (ROk b2, n2) ->
+  exists K s2, b ++ s = K ++ b2 ++ s2 /\ n2 = (length p + length K + length b2)%nat /\
+               filter (fun e => negb (is_dot e)) K = [].
+Proof.
+  induction fuel as [|f IH]; intros p b s b2 n2; cbn [refill].
+  - destruct (only_dots b); [discriminate|]. intros [= <- <-]. exists [], s. cbn [app length]. auto with arith.
+  - destruct (only_dots b) eqn:Eo.
+    + destruct (getdents_l s size) as [b'|e] eqn:Hg; [|discriminate].
+      destruct (getdents_prefix _ _ _ Hg) as [s' ->]. rewrite skipn_app_len.
+      replace (length p + length b + length b')%nat with (length (p ++ b) + length b')%nat by (rewrite app_length; lia).
+      intros Hr. destruct (IH (p ++ b) b' s' b2 n2 Hr) as (K & s2 & HK & Hn & Hv).
+      exists (b ++ K), s2. split; [rewrite HK, <- app_assoc; reflexivity|]. split.
+      * rewrite Hn, !app_length. lia.
+      * rewrite filter_app, Hv, (only_dots_visible _ Eo). reflexivity.
+    + intros [= <- <-]. exists [], s. cbn [app length]. auto with arith.
+Qed.
+
+Lemma refill_fst_pos size : forall fuel s b pos pos',
+  fst (refill fuel s size b pos) = fst (refill fuel s size b pos').
+Proof.
+  induction fuel as [|f IH]; intros s b pos pos'; cbn [refill].
+  - destruct (only_dots b); reflexivity.
+  - destruct (only_dots b); [|reflexivity]. destruct (getdents_l s size); [apply IH|reflexivity].
+Qed.
+
 (* ------------------------------------------------------------------ fetch: invariant for every request *)
-Definition gd (uc : bool) (d : list hent) (size : N) (pos : nat) : res (list hent) * hstate :=
+Definition gd (X : rfixes) (uc : bool) (d : list hent) (size : N) (pos : nat) : res (list hent) * hstate :=
   match getdents_l (skipn pos d) size with
   | RErr e => (RErr e, mk_hstate true pos None)
-  | ROk b => (ROk b, if uc then after_batch pos b else mk_hstate true (pos + length b)%nat None)
+  | ROk b => post X uc d size b (pos + length b)%nat
   end.
 
-Definition fb (uc : bool) (d : list hent) (size offset : N) : res (list hent) * hstate :=
-  match scan (S (length d)) d size offset false 0%nat with
+Definition fb (X : rfixes) (uc : bool) (d : list hent) (size offset : N) : res (list hent) * hstate :=
+  match scan (S (length d)) d (if rx_scanlen X then N.max size 4096 else size) offset false 0%nat with
   | (RErr e, n) => (RErr e, mk_hstate true n None)
-  | (ROk b, n) => (ROk b, mk_hstate true n (if uc then last_cookie b else None))
+  | (ROk b, n) => post X uc d size b n
   end.
 
 Definition cache_hit (uc : bool) (hs : hstate) (offset : N) : bool :=
   uc && match hs_cache hs with Some c => c =? offset | None => false end.
 
-Lemma fetch_unfold H uc d hs size offset :
-  fetch H uc d hs size offset =
-  if cache_hit uc hs offset then gd uc d size (hs_pos hs)
-  else if I64_MAX <? offset then fb uc d size offset
-  else if ho_seek_status H offset =? 0 then gd uc d size (lseek_pos H d offset)
-  else if ho_seek_status H offset =? EINVAL then fb uc d size offset
+Lemma fetch_unfold H X uc d hs size offset :
+  fetch H X uc d hs size offset =
+  if cache_hit uc hs offset then gd X uc d size (hs_pos hs)
+  else if I64_MAX <? offset then fb X uc d size offset
+  else if ho_seek_status H offset =? 0 then gd X uc d size (lseek_pos H d offset)
+  else if ho_seek_status H offset =? EINVAL then fb X uc d size offset
   else (RErr (ho_seek_status H offset), mk_hstate true (hs_pos hs) None).
 Proof. reflexivity. Qed.
 
@@ -223,26 +262,51 @@ Proof.
   exfalso. apply Hne. apply skipn_all2. lia.
 Qed.
 
-Lemma gd_inv uc d size pos : good_dir d -> Inv_h d (snd (gd uc d size pos)).
+Lemma post_inv X uc d size p b s :
+  good_dir d -> d = p ++ b ++ s -> Inv_h d (snd (post X uc d size b (length p + length b))).
+Proof.
+  intros Hg Hd. unfold post.
+  assert (Hsk : skipn (length p + length b) d = s).
+  { rewrite Hd, app_assoc. replace (length p + length b)%nat with (length (p ++ b)) by (rewrite app_length; reflexivity).
+    apply skipn_app_len. }
+  rewrite Hsk.
+  destruct (rx_refill X).
+  - destruct (refill (S (length s)) s size b (length p + length b)) as [[b2|e] n2] eqn:Hr; cbn [snd]; [|exact I].
+    destruct uc; [|exact I].
+    destruct (refill_segment size _ p b s b2 n2 Hr) as (K & s2 & HK & Hn & _).
+    assert (Hd2 : d = (p ++ K) ++ b2 ++ s2) by (rewrite Hd, HK, <- !app_assoc; reflexivity).
+    pose proof (seg_inv d (p ++ K) b2 s2 true Hg Hd2) as Hi. rewrite app_length in Hi. rewrite Hn. exact Hi.
+  - cbn [snd]. destruct uc; [|exact I]. apply (seg_inv d p b s true Hg Hd).
+Qed.
+
+Lemma post_open X uc d size b pos : hs_open (snd (post X uc d size b pos)) = true.
+Proof.
+  unfold post. destruct (rx_refill X); [destruct (refill _ _ _ _ _) as [[b2|e] n2]|]; reflexivity.
+Qed.
+
+Lemma gd_inv X uc d size pos : good_dir d -> Inv_h d (snd (gd X uc d size pos)).
 Proof.
   intros Hg. unfold gd. destruct (getdents_l (skipn pos d) size) as [b|e] eqn:Hgd; cbn [snd]; [|exact I].
-  destruct uc; [|exact I]. unfold after_batch.
-  destruct b as [|b0 bt] eqn:Eb; [exact I|]. rewrite <- Eb in *.
   destruct (getdents_prefix _ _ _ Hgd) as [s Hs].
-  assert (Hne : skipn pos d <> []) by (rewrite Hs, Eb; discriminate).
-  destruct (skipn_nonempty_split _ _ Hne) as [Hd Hl].
-  rewrite Hs in Hd. pose proof (seg_inv d _ b s true Hg Hd) as Hi. rewrite Hl in Hi. exact Hi.
+  destruct b as [|b0 bt] eqn:Eb.
+  - (* empty batch: nothing re-read, nothing cached *)
+    unfold post. cbn [refill only_dots]. destruct (rx_refill X); cbn [snd]; destruct uc; exact I.
+  - rewrite <- Eb in *.
+    assert (Hne : skipn pos d <> []) by (rewrite Hs, Eb; discriminate).
+    destruct (skipn_nonempty_split _ _ Hne) as [Hd Hl].
+    rewrite Hs in Hd. pose proof (post_inv X uc d size (firstn pos d) b s Hg Hd) as Hi. rewrite Hl in Hi. exact Hi.
 Qed.
 
-Lemma fb_inv uc d size offset : good_dir d -> Inv_h d (snd (fb uc d size offset)).
+Lemma fb_inv X uc d size offset : good_dir d -> Inv_h d (snd (fb X uc d size offset)).
 Proof.
-  intros Hg. unfold fb. destruct (scan (S (length d)) d size offset false 0%nat) as [[b|e] n] eqn:Hs; cbn [snd]; [|exact I].
-  destruct uc; [|exact I].
-  destruct (scan_segment d size offset (S (length d)) [] d false b n eq_refl Hs) as (p & s & Hd & ->).
-  apply (seg_inv d p b s true Hg Hd).
+  intros Hg. unfold fb.
+  destruct (scan (S (length d)) d (if rx_scanlen X then N.max size 4096 else size) offset false 0%nat) as [[b|e] n] eqn:Hs;
+    cbn [snd]; [|exact I].
+  destruct (scan_segment d _ offset (S (length d)) [] d false b n eq_refl Hs) as (p & s & Hd & ->).
+  apply (post_inv X uc d size p b s Hg Hd).
 Qed.
 
-Lemma fetch_inv H uc d hs size offset : good_dir d -> Inv_h d (snd (fetch H uc d hs size offset)).
+Lemma fetch_inv H X uc d hs size offset : good_dir d -> Inv_h d (snd (fetch H X uc d hs size offset)).
 Proof.
   intros Hg. rewrite fetch_unfold.
   destruct (cache_hit uc hs offset); [apply gd_inv; exact Hg|].
@@ -251,11 +315,11 @@ Proof.
   destruct (ho_seek_status H offset =? EINVAL); [apply fb_inv; exact Hg|exact I].
 Qed.
 
-Lemma gd_open uc d size pos : hs_open (snd (gd uc d size pos)) = true.
-Proof. unfold gd. destruct (getdents_l _ _); [destruct uc|]; reflexivity. Qed.
-Lemma fb_open uc d size offset : hs_open (snd (fb uc d size offset)) = true.
-Proof. unfold fb. destruct (scan _ _ _ _ _ _) as [[b|e] n]; reflexivity. Qed.
-Lemma fetch_open H uc d hs size offset : hs_open (snd (fetch H uc d hs size offset)) = true.
+Lemma gd_open X uc d size pos : hs_open (snd (gd X uc d size pos)) = true.
+Proof. unfold gd. destruct (getdents_l _ _); [apply post_open|reflexivity]. Qed.
+Lemma fb_open X uc d size offset : hs_open (snd (fb X uc d size offset)) = true.
+Proof. unfold fb. destruct (scan _ _ _ _ _ _) as [[b|e] n]; [apply post_open|reflexivity]. Qed.
+Lemma fetch_open H X uc d hs size offset : hs_open (snd (fetch H X uc d hs size offset)) = true.
 Proof.
   rewrite fetch_unfold.
   destruct (cache_hit uc hs offset); [apply gd_open|].
@@ -303,9 +367,9 @@ Proof.
   - rewrite Hi. reflexivity.
 Qed.
 
-Lemma fetch_resume H uc pre rest hs size off :
+Lemma fetch_resume H X uc pre rest hs size off :
   good_dir (pre ++ rest) -> seekable H (pre ++ rest) -> Inv_h (pre ++ rest) hs -> off_at pre off ->
-  fetch H uc (pre ++ rest) hs size off = gd uc (pre ++ rest) size (length pre).
+  fetch H X uc (pre ++ rest) hs size off = gd X uc (pre ++ rest) size (length pre).
 Proof.
   intros Hg Hs Hi Ho. rewrite fetch_unfold.
   destruct (off_at_index _ _ _ Hg Ho) as [[-> ->]|[Hnz Hidx]].
